@@ -246,6 +246,7 @@ class InitializeAddDiffIo(Contract):
     prop = ("C09",)
     params = {"graph": TObj(NXG), "input_names": NAME_LIST, "output_names": NAME_LIST}
     returns = TTuple(DLIST, DLIST, DIO)
+    set_of_list_via_lset = True  # set(list of names) is described through lset (see LSET_DEF) rather than by a lambda term
     loops = {0: LoopSpec(anchor="graph.nodes", inv=lambda c, k: _init_inv(c, k), modifies=("input_sources", "output_sources", "diff_ios"),
                          local_types={"input_sources": DLIST, "output_sources": DLIST, "diff_ios": DIO})}
 
@@ -372,4 +373,12 @@ class TraverseAddDiffIo(Contract):
         N, E = g._nodes, g.edge
         p, q, d1, dk = D("p!tr"), D("q!tr"), D("d1!tr"), D("dk!tr")
         on_path = z3.And(N.member[p], N.member[q], E[p][q], N.member[d1], requested(X, in_names, d1, "tri"), reach(E, d1, p), N.member[dk], requested(O, out_names, dk, "tro"), reach(E, q, dk))
-        return [("edges-on-requested-paths-are-covered", z3.ForAll([p, q, d1, dk], z3.Implies(on_path, covers(r, p, q, g.io))))]
+        d, k = D("d!tr"), S("k!tr")
+        return [
+            ("edges-on-requested-paths-are-covered", z3.ForAll([p, q, d1, dk], z3.Implies(on_path, covers(r, p, q, g.io)))),
+            # path of length 0: a discipline with a requested input and a requested output keeps all of them
+            ("requested-names-of-a-single-discipline", z3.ForAll([d], z3.Implies(
+                z3.And(N.member[d], requested(X, in_names, d, "trs"), requested(O, out_names, d, "trt")),
+                z3.And(r.member[d], z3.ForAll([k], z3.And(z3.Implies(z3.And(in_name_list(X, k, "tru"), in_names(d)[k]), lst_has(ins(r, d), k)),
+                                                          z3.Implies(z3.And(in_name_list(O, k, "trv"), out_names(d)[k]), lst_has(outs(r, d), k)))))))),
+        ]
